@@ -1,7 +1,77 @@
-//! StochasticOscillator — reference model (TODO).
+//! StochasticOscillator. Doc links wikipedia: %K = (close - L_n) / (H_n - L_n), L_n / H_n = lowest low /
+//! highest high of the last `period` candles; the slow version smooths %K, %D smooths that again.
+//! Config: `ma` = "Moving average for smoothing `main` value", `signal` = "Moving average type for
+//! smoothing `signal line` value", `zone` = "Zone size for #1 and #2 signals" (lower bound = zone,
+//! upper bound = 1 - zone).
+//! 2 values: `main` = MA(%K), `signal line` = SIGNAL(main); both in [0; 1].
+//! 3 signals:
+//!   #1 main crosses lower bound upwards -> full buy; main crosses upper bound downwards -> full sell.
+//!   #2 the same for the signal line.
+//!   #3 main crosses signal line upwards -> full buy, downwards -> full sell.
 use super::*;
 
-/// returns None until the reference is written
-pub fn make(_cfg: &Cfg, _c0: &RC) -> Option<Box<dyn IndRef>> {
-	None
+#[derive(Clone)]
+pub struct StochasticOscillator {
+	zone: f64,
+	hi: Ext,
+	lo: Ext,
+	ma: Box<dyn rm::RefVV>,
+	sig: Box<dyn rm::RefVV>,
+	/// (above lower bound, under upper bound) detectors of the main value / of the signal line;
+	/// started on the first candle: on the constant prehistory both lines stay where the first candle puts them
+	d1: Option<(CrossD, CrossD)>,
+	d2: Option<(CrossD, CrossD)>,
+	x: CrossD,
+}
+
+fn raw_k(close: f64, highest: f64, lowest: f64) -> Q {
+	if highest == lowest {
+		// † follows the implementation: %K is 0/0 when the whole window has no range (exact predicate
+		// highest == lowest); the indicator answers the middle 0.5
+		return Q::exact(0.5);
+	}
+	(Q::exact(close) - Q::exact(lowest)) / (Q::exact(highest) - Q::exact(lowest))
+}
+
+impl IndRef for StochasticOscillator {
+	fn values(&mut self, c: &RC) -> Vec<Q> {
+		self.hi.push(c.h);
+		self.lo.push(c.l);
+		let k = raw_k(c.c, self.hi.highest(), self.lo.lowest());
+		let main = self.ma.stepq(k);
+		let signal = self.sig.stepq(main);
+		vec![main, signal]
+	}
+	fn signals(&mut self, _c: &RC, own: &[f64]) -> Vec<Sig> {
+		let (main, signal) = (own[0], own[1]);
+		let (lower, upper) = (self.zone, 1.0 - self.zone);
+		let zone_signal = |d: &mut Option<(CrossD, CrossD)>, v: f64| {
+			let (above, under) = d.get_or_insert((CrossD::new(v - lower), CrossD::new(v - upper)));
+			let up = above.above(v, lower);
+			let down = under.under(v, upper);
+			sig_sub(sig_sign(up as i32), sig_sign(down as i32))
+		};
+		let s1 = zone_signal(&mut self.d1, main);
+		let s2 = zone_signal(&mut self.d2, signal);
+		let s3 = sig_sign(self.x.cross(main, signal));
+		vec![s1, s2, s3]
+	}
+	indref!(StochasticOscillator);
+}
+
+pub fn make(cfg: &Cfg, c0: &RC) -> Option<Box<dyn IndRef>> {
+	let n = cfg.int("period");
+	// constant prehistory: %K of the first candle alone, and every average of it
+	let k0 = raw_k(c0.c, c0.h, c0.l);
+	Some(Box::new(StochasticOscillator {
+		zone: cfg.float("zone"),
+		hi: Ext::new(n, c0.h),
+		lo: Ext::new(n, c0.l),
+		ma: cfg.ma_ref("ma", k0),
+		sig: cfg.ma_ref("signal", k0),
+		d1: None,
+		d2: None,
+		// main - signal line on the constant prehistory
+		x: CrossD::new(0.0),
+	}))
 }
